@@ -59,6 +59,9 @@ func statusParse(c *casket.Controller) ([]httpserver.HandlerConfig, error) {
 			if err != nil {
 				return rules, c.Errf("Expecting a numeric status code, got '%s'", args[0])
 			}
+			if status < 100 || status > 999 {
+				return rules, c.Errf("Status code must be between 100 and 999, got '%s'", args[0])
+			}
 
 			for c.NextBlock() {
 				hadBlock = true
@@ -86,6 +89,9 @@ func statusParse(c *casket.Controller) ([]httpserver.HandlerConfig, error) {
 			status, err := strconv.Atoi(args[0])
 			if err != nil {
 				return rules, c.Errf("Expecting a numeric status code, got '%s'", args[0])
+			}
+			if status < 100 || status > 999 {
+				return rules, c.Errf("Status code must be between 100 and 999, got '%s'", args[0])
 			}
 
 			basePath := args[1]
